@@ -168,6 +168,8 @@ class SignRequestPayload(base.RequestPayload):
                 "invalid payload missing the data attribute"
             )
 
+        self.is_oversized(local_stream)
+
     def write(self, output_stream, kmip_version=enums.KMIPVersion.KMIP_1_0):
         """
         Write the data encoding the Sign request payload to a stream.
